@@ -27,33 +27,60 @@ struct Obs {
     declared: Vec<String>, built: Vec<String>, ignored: Vec<String>, ast_rules: Option<Vec<String>>,
     utf8_err: Option<(usize, Option<usize>)>, e032_span: Option<(usize, usize)>, max_depth: usize,
     codes: Vec<String>, wcodes: Vec<String>, multiline_fix: bool,
+    /// labels of `invalid regular expression` errors that do not lie inside any REGEXP token of the CST
+    re_outside: usize, cfg: u8,
 }
 
-fn declared_rules(src: &[u8]) -> (Vec<String>, usize) {
+fn declared_rules(src: &[u8]) -> (Vec<String>, usize, Vec<(usize, usize)>) {
+    let mut regexps = vec![];
     let mut names = vec![]; let mut depth = 0usize; let mut max_depth = 0usize; let mut want_name = false;
     for e in CSTStream::from(Parser::new(src)) {
         match e {
             Event::Begin { kind, .. } => { depth += 1; max_depth = max_depth.max(depth); if kind == SyntaxKind::RULE_DECL { want_name = true; } }
             Event::End { kind, .. } => { depth -= 1; if kind == SyntaxKind::RULE_DECL { if want_name { names.push(String::new()); } want_name = false; } }
+            Event::Token { kind: SyntaxKind::REGEXP, span } => regexps.push((span.start(), span.end())),
             Event::Token { kind: SyntaxKind::IDENT, span } if want_name => { names.push(String::from_utf8_lossy(&src[span.range()]).to_string()); want_name = false; }
             _ => {}
         }
     }
-    (names, max_depth)
+    (names, max_depth, regexps)
 }
 
-fn observe(src: &[u8]) -> Obs {
+/// the compiler configurations every property of C09 is claimed for
+const N_CFG: u8 = 6;
+fn cfg_name(cfg: u8) -> &'static str {
+    match cfg { 0 => "default", 1 => "relaxed_re_syntax", 2 => "error_on_slow", 3 => "linters", 4 => "ignore_ban_module", _ => "optimize_narrow_color" }
+}
+fn apply_cfg(c: &mut yara_x::Compiler, cfg: u8) {
+    match cfg {
+        0 => {}
+        1 => { c.relaxed_re_syntax(true); }
+        2 => { c.error_on_slow_pattern(true); c.error_on_slow_loop(true); }
+        3 => {
+            c.add_linter(yara_x::linters::rule_name("^r[0-9]*$").unwrap());
+            c.add_linter(yara_x::linters::tags_allowed(vec!["t1".to_string()]).error(true));
+            c.add_linter(yara_x::linters::metadata("author").required(true));
+        }
+        4 => { c.ignore_module("pe"); c.ban_module("math", "module banned", "math is not allowed here"); }
+        _ => { c.condition_optimization(true); c.colorize_errors(true); c.errors_max_width(40); c.max_warnings(2); }
+    }
+}
+
+fn observe(src: &[u8], cfg: u8) -> Obs {
     let mut o = Obs::default();
+    o.cfg = cfg;
+    let mut regexps: Vec<(usize, usize)> = vec![];
     let valid = std::str::from_utf8(src);
     let rendered: String = match valid { Ok(s) => s.to_string(), Err(_) => String::from_utf8_lossy(src).to_string() };
     o.rendered_len = rendered.len();
     if let Err(e) = valid { o.utf8_err = Some((e.valid_up_to(), e.error_len())); }
     if valid.is_ok() {
-        let (d, m) = declared_rules(src); o.declared = d; o.max_depth = m;
+        let (d, m, r) = declared_rules(src); o.declared = d; o.max_depth = m; regexps = r;
         let ast = yara_x_parser::ast::AST::from(Parser::new(src));
         o.ast_rules = Some(ast.rules().map(|r| r.identifier.name.to_string()).collect());
     }
     let mut c = yara_x::Compiler::new();
+    apply_cfg(&mut c, cfg);
     o.add_ok = c.add_source(src).is_ok();
     o.nerr = c.errors().len(); o.nwarn = c.warnings().len();
     o.render_ok = true;
@@ -66,6 +93,9 @@ fn observe(src: &[u8]) -> Obs {
             let (a, b) = (l.span().start(), l.span().end());
             o.labels.push((a, b, rendered.is_char_boundary(a), rendered.is_char_boundary(b)));
             if e.code() == "E032" && o.e032_span.is_none() { o.e032_span = Some((a, b)); }
+            // an error about a regular expression points into that regular expression (or at a construct,
+            // like the pattern definition, that contains the whole regexp literal)
+            if e.code() == "E014" && valid.is_ok() && !regexps.iter().any(|(s, t)| (*s <= a && b <= *t) || (a <= *s && *t <= b)) { o.re_outside += 1; }
         }
     }
     for w in c.warnings() {
@@ -93,13 +123,13 @@ fn observe(src: &[u8]) -> Obs {
 
 fn obs_json(o: &Obs) -> String {
     let strs = |v: &Vec<String>| format!("[{}]", v.iter().map(|s| json_str(s)).collect::<Vec<_>>().join(","));
-    format!("{{\"panicked\":{},\"add_ok\":{},\"nerr\":{},\"nwarn\":{},\"render_ok\":{},\"build_ok\":{},\"labels\":[{}],\"rendered_len\":{},\"declared\":{},\"built\":{},\"ignored\":{},\"ast_rules\":{},\"utf8_err\":{},\"e032_span\":{},\"max_depth\":{},\"codes\":{},\"wcodes\":{},\"multiline_fix\":{}}}",
+    format!("{{\"panicked\":{},\"add_ok\":{},\"nerr\":{},\"nwarn\":{},\"render_ok\":{},\"build_ok\":{},\"labels\":[{}],\"rendered_len\":{},\"declared\":{},\"built\":{},\"ignored\":{},\"ast_rules\":{},\"utf8_err\":{},\"e032_span\":{},\"max_depth\":{},\"codes\":{},\"wcodes\":{},\"multiline_fix\":{},\"re_outside\":{},\"cfg\":{}}}",
         match &o.panicked { Some(m) => json_str(m), None => "null".into() }, o.add_ok, o.nerr, o.nwarn, o.render_ok, o.build_ok,
         o.labels.iter().map(|(a, b, x, y)| format!("[{},{},{},{}]", a, b, x, y)).collect::<Vec<_>>().join(","), o.rendered_len,
         strs(&o.declared), strs(&o.built), strs(&o.ignored),
         match &o.ast_rules { Some(v) => strs(v), None => "null".into() },
         match &o.utf8_err { Some((v, Some(n))) => format!("[{},{}]", v, n), Some((v, None)) => format!("[{},null]", v), None => "null".into() },
-        match &o.e032_span { Some((a, b)) => format!("[{},{}]", a, b), None => "null".into() }, o.max_depth, strs(&o.codes), strs(&o.wcodes), o.multiline_fix)
+        match &o.e032_span { Some((a, b)) => format!("[{},{}]", a, b), None => "null".into() }, o.max_depth, strs(&o.codes), strs(&o.wcodes), o.multiline_fix, o.re_outside, o.cfg)
 }
 
 fn obs_from_json(s: &str) -> Option<Obs> {
@@ -114,7 +144,7 @@ fn obs_from_json(s: &str) -> Option<Obs> {
         declared: strs(&v["declared"])?, built: strs(&v["built"])?, ignored: strs(&v["ignored"])?, ast_rules: strs(&v["ast_rules"]),
         utf8_err: v["utf8_err"].as_array().map(|a| (a[0].as_u64().unwrap() as usize, a[1].as_u64().map(|x| x as usize))),
         e032_span: v["e032_span"].as_array().map(|a| (a[0].as_u64().unwrap() as usize, a[1].as_u64().unwrap() as usize)),
-        max_depth: v["max_depth"].as_u64()? as usize, codes: strs(&v["codes"])?, wcodes: strs(&v["wcodes"]).unwrap_or_default(), multiline_fix: v["multiline_fix"].as_bool().unwrap_or(false),
+        max_depth: v["max_depth"].as_u64()? as usize, codes: strs(&v["codes"])?, wcodes: strs(&v["wcodes"]).unwrap_or_default(), multiline_fix: v["multiline_fix"].as_bool().unwrap_or(false), re_outside: v["re_outside"].as_u64().unwrap_or(0) as usize, cfg: v["cfg"].as_u64().unwrap_or(0) as u8,
     })
 }
 
@@ -124,16 +154,24 @@ fn child(file: &str, from: usize) -> i32 {
     let h = std::thread::Builder::new().stack_size(CHILD_STACK).spawn(move || {
         // silent hook that remembers where the panic was raised (file only: line numbers move)
         std::panic::set_hook(Box::new(|info| {
-            if let Some(l) = info.location() { *PANIC_LOC.lock().unwrap() = l.file().rsplit("/repo/").next().unwrap_or(l.file()).to_string(); }
+            if let Some(l) = info.location() {
+                // path relative to the repository root, wherever the repository is checked out
+                let f = l.file();
+                let rel = ["/lib/src/", "/parser/src/", "/fmt/src/", "/macros/src/", "/capi/src/", "/proto/src/"].iter()
+                    .filter_map(|m| f.find(m).map(|i| &f[i + 1..])).next().unwrap_or(f);
+                *PANIC_LOC.lock().unwrap() = rel.to_string();
+            }
         }));
         let text = std::fs::read_to_string(&file).unwrap();
         let out = std::io::stdout();
         for (i, line) in text.lines().enumerate().skip(from) {
-            let src = unhex(line.trim());
+            let (cfg, hx) = line.trim().split_once(' ').unwrap_or(("0", line.trim()));
+            let cfg: u8 = cfg.parse().unwrap_or(0);
+            let src = unhex(hx);
             { let mut o = out.lock(); writeln!(o, "BEGIN {}", i).unwrap(); o.flush().unwrap(); }
-            let obs = match catch(AssertUnwindSafe(|| observe(&src))) {
+            let obs = match catch(AssertUnwindSafe(|| observe(&src, cfg))) {
                 Ok(o) => o,
-                Err(m) => { let mut o = Obs::default(); o.panicked = Some(format!("{}: {}", PANIC_LOC.lock().unwrap(), m)); o }
+                Err(m) => { let mut o = Obs::default(); o.cfg = cfg; o.panicked = Some(format!("{}: {}", PANIC_LOC.lock().unwrap(), m)); o }
             };
             { let mut o = out.lock(); writeln!(o, "RESULT {} {}", i, obs_json(&obs)).unwrap(); o.flush().unwrap(); }
         }
@@ -142,9 +180,9 @@ fn child(file: &str, from: usize) -> i32 {
 }
 
 /// parent: run all cases through children; a crash/hang is attributed to the case in progress
-fn run_in_children(cases: &[Vec<u8>], dir: &Path) -> Vec<Obs> {
+fn run_in_children(cases: &[(u8, Vec<u8>)], dir: &Path) -> Vec<Obs> {
     let file = dir.join("batch.hex");
-    std::fs::write(&file, cases.iter().map(|c| hex(c)).collect::<Vec<_>>().join("\n") + "\n").unwrap();
+    std::fs::write(&file, cases.iter().map(|c| format!("{} {}", c.0, hex(&c.1))).collect::<Vec<_>>().join("\n") + "\n").unwrap();
     let exe = std::env::current_exe().unwrap();
     let mut res: Vec<Option<Obs>> = vec![None; cases.len()];
     let mut from = 0usize;
@@ -173,7 +211,7 @@ fn run_in_children(cases: &[Vec<u8>], dir: &Path) -> Vec<Obs> {
         }
         let _ = ch.wait(); let _ = reader.join();
         if let Some(i) = current {
-            let mut o = Obs::default(); o.crashed = !timed_out; o.timed_out = timed_out; res[i] = Some(o); from = i + 1;
+            let mut o = Obs::default(); o.cfg = cases[i].0; o.crashed = !timed_out; o.timed_out = timed_out; res[i] = Some(o); from = i + 1;
         } else if from < cases.len() && !timed_out && res[from].is_none() {
             // the child ended without starting the next case: count it as a crash of that case
             let status_ok = false;
@@ -299,6 +337,69 @@ fn gen_multiline_fix(rng: &mut Rng) -> Vec<u8> {
     s.into_bytes()
 }
 
+/// regular expressions that relaxed_re_syntax repairs (literal `{` / `}`, unknown escapes) combined with
+/// a genuine error later in the same regexp, multi-byte characters around
+fn gen_regexp_error(rng: &mut Rng) -> Vec<u8> {
+    const PLAIN: &[&str] = &["a", "ab", "\\d", ".", "\u{e9}", "\u{20ac}", "\u{1f600}", "x+", "(y|z)", "[0-9]", "\\x41", "b?", " "];
+    const FIXABLE: &[&str] = &["{", "}", "a{", "{}", "{x}", "a{,}", "{ }", "{1,x}", "\\g", "\\_", "\\<", "\\%", "\\\u{e9}", "{\u{1f600}}", "}{"];
+    const BROKEN: &[&str] = &["(", ")", "[z-a]", "a{3,1}", "[", "*", "a**", "(?P<n", "\\xZZ", "[[:foo:]]", "(?z)", "x{99999}", "\\", "(a", "a)", "[a", "+", "\\p{Foo}", "(?<n>a)(?<n>b)"];
+    let mut re = String::new();
+    let nfix = rng.below(4);
+    for _ in 0..rng.below(3) { re.push_str(*rng.pick(PLAIN)); }
+    for _ in 0..nfix { re.push_str(*rng.pick(FIXABLE)); for _ in 0..rng.below(2) { re.push_str(*rng.pick(PLAIN)); } }
+    if rng.chance(4, 5) { re.push_str(*rng.pick(BROKEN)); }
+    for _ in 0..rng.below(3) { re.push_str(*rng.pick(PLAIN)); }
+    if rng.chance(1, 4) { re.push_str(*rng.pick(FIXABLE)); }
+    if re.is_empty() || re.starts_with('*') { re.insert(0, 'q'); }
+    let mods = *rng.pick(&["", "i", "s", "is", ""]);
+    let s = match rng.below(5) {
+        0 | 1 => format!("rule r {{ strings: $a = /{}/{} condition: $a }}", re, mods),
+        2 => format!("rule r {{ strings: $a = /{}/{} wide $b = /ok{{2}}/ condition: $a or $b }}", re, mods),
+        3 => format!("rule r {{ condition: \"x\" matches /{}/{} }}", re, mods),
+        _ => format!("rule r {{ strings: $a = /q{{/ $b = /{}/{} condition: all of them }}", re, mods),
+    };
+    s.into_bytes()
+}
+
+/// small rules that together use every production of the grammar; the single-token sweep deletes or
+/// duplicates each of their tokens in turn
+const SWEEP_RULES: &[&str] = &[
+    "import \"pe\" private global rule s0 : t1 t2 { meta: a = 1 b = \"s\" c = true d = -2 e = 1.5 condition: true }",
+    "rule s1 { strings: $a = \"x\" ascii wide nocase fullword private $b = \"y\" xor(1-5) $c = \"z\" base64(\"ABCDEFGHIJKLMNOPQRSTUVWXYZabcdefghijklmnopqrstuvwxyz0123456789+/\") condition: $a or $b or $c }",
+    "rule s2 { strings: $a = /ab+c/is $b = { 01 ?? [2-4] ( 03 | 04 [1] 05 ) ~06 [2-] 07 } condition: $a at 10 or $b in (0..100) }",
+    "rule s3 { condition: for any i in (1, 2, 3) : ( i == 1 ) }",
+    "rule s4 { condition: for all i, j in (0..3) : ( i + j < 10 ) }",
+    "rule s5 { strings: $a = \"x\" $b = \"y\" condition: for 2 of ($a, $b*) : ( $ at 0 ) and 1 of (true, false, 1 == 1) }",
+    "rule s6 { strings: $a = \"x\" condition: any of them in (0..10) or 50% of ($a*) or none of ($a) at 5 }",
+    "rule s7 { condition: with x = 1, y = 2 + 3 : ( x < y ) }",
+    "rule s8 { strings: $a = \"x\" condition: #a in (0..9) > 1 and @a[1] < 5 and !a[2] == 1 and #a == 2 }",
+    "rule s9 { condition: pe.sections[0].name == \"x\" and f(1, \"s\", /r/) and a.b.c(2)[3] != 0 }",
+    "rule s10 { condition: not defined (1 + 2 * 3 \\ 4 % 5 - -6) or ~1 & 2 | 3 ^ 4 << 1 >> 2 == 0 }",
+    "rule s11 { condition: \"a\" contains \"b\" or \"a\" icontains \"b\" or \"a\" startswith \"b\" or \"a\" iendswith \"b\" or \"a\" iequals \"b\" or \"a\" matches /b/ }",
+    "rule s12 { condition: filesize > 1KB and entrypoint >= 0x10 and 1.5 <= 2.0 and for any s in pe.sections : ( s.size > 0 ) }",
+    "include \"x.yar\" rule s13 { condition: for any k, v in some_map : ( k == \"a\" and v == 1 ) }",
+    "rule s14 { condition: for 1 i in (1, 2) : ( for any j in (i, 3) : ( j == 3 ) ) and (true or (false and (1 == 1))) }",
+];
+
+fn token_sweep() -> Vec<(String, Vec<u8>)> {
+    let mut out = vec![];
+    for r in SWEEP_RULES {
+        let src = r.as_bytes();
+        let spans = token_spans(src);
+        for (i, (a, b)) in spans.iter().enumerate() {
+            if src[*a..*b].iter().all(|c| c.is_ascii_whitespace()) { continue; }
+            // delete token i
+            let mut d = src[..*a].to_vec(); d.extend_from_slice(&src[*b..]);
+            out.push(("sweep_delete".to_string(), d));
+            // duplicate token i (separated by a space so that it stays a token of its own)
+            let mut u = src[..*b].to_vec(); u.push(b' '); u.extend_from_slice(&src[*a..*b]); u.extend_from_slice(&src[*b..]);
+            out.push(("sweep_duplicate".to_string(), u));
+            let _ = i;
+        }
+    }
+    out
+}
+
 fn main() { let args: Vec<String> = std::env::args().skip(1).collect(); std::process::exit(run(&args)); }
 
 fn run(args: &[String]) -> i32 {
@@ -309,7 +410,9 @@ fn run(args: &[String]) -> i32 {
     std::fs::create_dir_all(dir).unwrap();
     if let Some(hx) = arg_val(args, "--replay-hex") {
         let src = unhex(&hx);
-        let o = &run_in_children(&[src.clone()], dir)[0];
+        let cfg = arg_u64(args, "--cfg", 0) as u8;
+        println!("compiler configuration: {} ({})", cfg, cfg_name(cfg));
+        let o = &run_in_children(&[(cfg, src.clone())], dir)[0];
         println!("source ({} bytes): {:?}", src.len(), String::from_utf8_lossy(&src[..src.len().min(300)]));
         println!("crashed={} timed_out={} {}", o.crashed, o.timed_out, obs_json(o));
         let bad = spec_violations(o);
@@ -321,7 +424,19 @@ fn run(args: &[String]) -> i32 {
     let n = arg_u64(args, "--n", 400) as usize;
     let max_nest = arg_u64(args, "--max-nest", 200);
     let mut rng = Rng::new(seed);
-    let mut cases: Vec<(String, Vec<u8>)> = corpus(n >= 4000);
+    // (stream, source, compiler configuration)
+    let mut cases: Vec<(String, Vec<u8>, u8)> = corpus(n >= 4000).into_iter().map(|(a, b)| (a, b, 0u8)).collect();
+    // inputs that need a non-default configuration
+    for (src, cfg) in [(&b"rule r { strings: $a = /a{}b{}(/ condition: $a }"[..], 1u8), (b"rule r { strings: $a = /a{}b(/ condition: $a }", 1),
+                       (b"rule r { strings: $a = /\\g{x}[z-a]/ condition: $a }", 1),
+                       // known findings (relaxed_re_syntax): slice in the middle of a multi-byte character; no `{` to escape
+                       ("rule r { strings: $a = /(y|z)a{\u{e9}\\d/s condition: $a }".as_bytes(), 1), (b"rule r { strings: $a = /+ \\x41/i condition: $a }", 1), (b"rule r { strings: $a = { 00 00 00 00 } condition: $a }", 2),
+                       (b"rule Bad : t9 { condition: true }", 3), (b"import \"pe\" import \"math\" rule r { condition: pe.is_pe and math.abs(1) == 1 } rule q { condition: r }", 4),
+                       (b"rule r { strings: $a = \"abc\" condition: $a and for all i in (0..filesize) : ( i > 0 ) }", 2)] {
+        cases.push(("corpus_cfg".to_string(), src.to_vec(), cfg));
+    }
+    // every token of a set of small rules that covers every production: deleted, duplicated
+    for (stream, src) in token_sweep() { cases.push((stream, src, 0)); }
     if n >= 400 {
         // invalid UTF-8 at EVERY position of one small valid rule, for three kinds of bad sequence
         let base = b"rule r {condition: \"\xc3\xa9\" == \"e\"}".to_vec();
@@ -329,12 +444,16 @@ fn run(args: &[String]) -> i32 {
             for p in 0..=base.len() {
                 let mut v = base.clone();
                 for (k, b) in bad.iter().enumerate() { v.insert(p + k, *b); }
-                cases.push(("invalid_utf8_sweep".to_string(), v));
+                cases.push(("invalid_utf8_sweep".to_string(), v, 0));
             }
         }
     }
-    while cases.len() < n {
-        let c = match rng.below(19) {
+    let fixed = cases.len();
+    let mut generated = 0usize;
+    while generated < n {
+        generated += 1;
+        let c = match rng.below(22) {
+            19 | 20 | 21 => ("regexp_error".to_string(), gen_regexp_error(&mut rng)),
             12 | 13 => ("long_token_error".to_string(), gen_long_token_error(&mut rng)),
             14 | 15 => ("int_literal_position".to_string(), gen_int_literal_position(&mut rng)),
             16 | 18 => ("multiline_fix".to_string(), gen_multiline_fix(&mut rng)),
@@ -361,9 +480,16 @@ fn run(args: &[String]) -> i32 {
             }
             _ => gen_source(&mut rng),
         };
-        cases.push(c);
+        // every generated source under the default configuration and under two of the others (rotating);
+        // regexps always also with relaxed_re_syntax
+        let (k, m) = (generated, (N_CFG - 1) as usize);
+        let mut cfgs = vec![0u8, (1 + k % m) as u8, (1 + (k / m + k + 2) % m) as u8];
+        if c.0 == "regexp_error" { cfgs.push(1); }
+        cfgs.sort(); cfgs.dedup();
+        for cfg in cfgs { cases.push((c.0.clone(), c.1.clone(), cfg)); }
     }
-    let srcs: Vec<Vec<u8>> = cases.iter().map(|c| c.1.clone()).collect();
+    let _ = fixed;
+    let srcs: Vec<(u8, Vec<u8>)> = cases.iter().map(|c| (c.2, c.1.clone())).collect();
     let t0 = std::time::Instant::now();
     let obs = run_in_children(&srcs, dir);
     let elapsed = t0.elapsed().as_secs_f64();
@@ -373,7 +499,7 @@ fn run(args: &[String]) -> i32 {
     let mut stats = Stats::default();
     let mut distinct = std::collections::HashSet::new();
     let mut samples = vec![];
-    for ((stream, src), o) in cases.iter().zip(obs.iter()) {
+    for ((stream, src, cfg), o) in cases.iter().zip(obs.iter()) {
         // intern rule names of this case
         let mut names: Vec<String> = vec![];
         let mut id = |s: &String| -> String { let i = match names.iter().position(|x| x == s) { Some(i) => i, None => { names.push(s.clone()); names.len() - 1 } }; i.to_string() };
@@ -386,15 +512,16 @@ fn run(args: &[String]) -> i32 {
                 match &o.e032_span { Some((a, b)) => format!("Some ({}, {})", a, b), None => "None".into() }),
             _ => "None".into(),
         };
-        let case = format!("mkCase {} {} {} {}%nat {}%nat {} {} {} {} {} {} {} {} {}",
+        let case = format!("mkCase {} {} {} {}%nat {}%nat {} {} {} {} {} {} {} {} {} {}%nat",
             coq_bool(o.crashed || o.timed_out), coq_bool(o.panicked.is_some()), coq_bool(o.add_ok), o.nerr, o.nwarn, coq_bool(o.render_ok), coq_bool(o.build_ok),
             coq_list(&o.labels, |(a, b, x, y)| format!("({}, {}, {}, {})", a, b, coq_bool(*x), coq_bool(*y))), o.rendered_len,
-            declared, built, ignored, ast_rules, utf8);
+            declared, built, ignored, ast_rules, utf8, o.re_outside);
         let shown = if src.len() > 400 { format!("{}...({} bytes)", String::from_utf8_lossy(&src[..200]), src.len()) } else { String::from_utf8_lossy(src).to_string() };
-        let replay = format!("{{\"stream\":{},\"source_hex\":\"{}\",\"source_lossy\":{},\"crashed\":{},\"timed_out\":{},\"obs\":{},\"violations\":[{}]}}",
-            json_str(stream), if src.len() <= 20000 { hex(src) } else { String::new() }, json_str(&shown), o.crashed, o.timed_out, obs_json(o),
+        let replay = format!("{{\"stream\":{},\"cfg\":{},\"cfg_name\":\"{}\",\"source_hex\":\"{}\",\"source_lossy\":{},\"crashed\":{},\"timed_out\":{},\"obs\":{},\"violations\":[{}]}}",
+            json_str(stream), cfg, cfg_name(*cfg), if src.len() <= 20000 { hex(src) } else { String::new() }, json_str(&shown), o.crashed, o.timed_out, obs_json(o),
             spec_violations(o).iter().map(|s| json_str(s)).collect::<Vec<_>>().join(","));
         stats.inc(&format!("stream_{}", stream));
+        stats.inc(&format!("cfg_{}", cfg_name(*cfg)));
         if o.crashed { stats.inc("child_crashed"); } if o.timed_out { stats.inc("child_timed_out"); } if o.panicked.is_some() { stats.inc("panicked"); }
         if o.add_ok { stats.inc("accepted"); } else { stats.inc("rejected"); }
         if o.utf8_err.is_some() { stats.inc("invalid_utf8"); }
@@ -428,6 +555,7 @@ fn spec_violations(o: &Obs) -> Vec<String> {
         if a > b || *b > o.rendered_len { v.push(format!("label span {a}..{b} outside the source ({} bytes)", o.rendered_len)); }
         else if !x || !y { v.push(format!("label span {a}..{b} not on character boundaries")); }
     }
+    if o.re_outside > 0 { v.push(format!("{} label(s) of an `invalid regular expression` error neither lie inside a regexp literal of the source nor contain one", o.re_outside)); }
     if o.nerr == 0 {
         for d in &o.declared { if !o.built.contains(d) && !o.ignored.contains(d) {
             v.push(format!("rule `{}` was declared, the source was accepted without errors, but the rule is neither built nor ignored (expected: {} rules accounted for; actual: built={:?} ignored={:?})", d, o.declared.len(), o.built, o.ignored)); } }
